@@ -97,6 +97,12 @@ class Gen:
         self.leafb = {}
         fam = BOUNDS_FAMILIES[self.p["bounds_family"]]
         pool = LEAF_IDS[:self.p["nleaves"]] if rng.random() < 0.6 else "".join(sorted(rng.sample(LEAF_IDS, min(len(LEAF_IDS), self.p["nleaves"]))))
+        pool = list(pool)
+        if rng.random() < 0.12:
+            # digit strings are legal item ids; they look like the integer ids the library gives row indices and
+            # default columns
+            k = rng.randint(1, min(3, len(pool)))
+            pool = pool[:-k] + ["1", "2", "3", "0"][:k]
         for c in pool:
             if rng.random() < self.p["int_leaf_prob"]:
                 self.leafb[c] = rng.choice(fam)
